@@ -74,11 +74,11 @@ type Contract struct {
 	// PropagatesErrors: every error a callee returns must be the error the
 	// function returns (directive `propagates errors`)
 	PropagatesErrors bool
-	NoSafety    bool
-	File        string
-	Lift        string
-	Ghost       bool // spec function (not code under verification)
-	Swept       bool
+	NoSafety         bool
+	File             string
+	Lift             string
+	Ghost            bool // spec function (not code under verification)
+	Swept            bool
 }
 
 type Lemma struct {
